@@ -104,8 +104,15 @@ class Engine:
         parsers = ["p0", "p1"]
         mds = {f"m{i}": o.choice(cids) for i in range(o.choice([1, 2]))}
         ops = []
+        sphinx_shared_cfg = o.choice(cids)
+        sphinx_shared_extra = o.choice([
+            {}, {"mathjax3_config": {"options": {"processHtmlClass": "custom-class"}}},
+            {"mathjax3_config": {"tex": {"macros": {"RR": "\\mathbb{R}"}}}},
+            {"myst_update_mathjax": False, "mathjax3_config": {"options": {"processHtmlClass": "custom-class"}}},
+            {"html_theme_options": {}, "myst_heading_anchors": 2}])
         n_ops = o.choice([6, 10, 16, 24])
         sphinx_ops = 0
+        max_sphinx = o.choice([2, 2, 3])
         for _ in range(n_ops):
             k = o.random()
             doc = o.choice(docs)
@@ -121,9 +128,16 @@ class Engine:
             elif k < 0.58:
                 m = o.choice(sorted(mds))
                 ops.append({"op": "mdit", "doc": doc, "md": m, "cfg": mds[m]})
-            elif k < 0.66 and sphinx_ops < 2:
+            elif k < 0.66 and sphinx_ops < max_sphinx:
                 sphinx_ops += 1
-                ops.append({"op": "sphinx", "cfg": o.choice(cids), "builder": o.choice(["xml", "xml", "html"])})
+                op = {"op": "sphinx", "cfg": o.choice(cids), "builder": o.choice(["xml", "xml", "html"])}
+                if o.random() < 0.5:
+                    # the caller keeps ONE confoverrides mapping (with nested dict values) and passes it to every
+                    # build, as a test-suite or an auto-rebuild loop does: "when the configuration object is reused"
+                    op["shared_conf"] = "k0"
+                    op["cfg"] = sphinx_shared_cfg
+                    op["extra_conf"] = sphinx_shared_extra
+                ops.append(op)
             elif k < 0.71:
                 ops.append({"op": "anchors", "doc": doc, "level": o.choice([1, 2, 6])})
             elif k < 0.75:
@@ -350,6 +364,8 @@ class _State:
         self.last_doctree = None
         self.last_cfg_obj = None
         self.sphinx_cfg_diff = None
+        self.shared_conf: dict = {}
+        self.shared_conf_snap: dict = {}
         self.seen_ops: list = []
 
     def cfg(self, cid):
@@ -406,6 +422,13 @@ class _State:
         if self.sphinx_cfg_diff:
             d, self.sphinx_cfg_diff = self.sphinx_cfg_diff, None
             return d
+        for key, conf in self.shared_conf.items():
+            now = sut.plain(conf)
+            snap = self.shared_conf_snap[key]
+            if now != snap:
+                fields = _diff_fields(snap, now)
+                return {"object_kind": "reused-sphinx-confoverrides", "object": key, "fields": fields,
+                        "before": {f: snap.get(f) for f in fields}, "after": {f: now.get(f) for f in fields}}
         return None
 
 
@@ -501,10 +524,20 @@ def _run_op(op, plan, root, i, state: _State, fresh: bool):  # noqa: C901
         cfg = {k: v for k, v in plan["configs"][op["cfg"]].items()
                if k not in ("suppress_warnings", "highlight_code_blocks", "inventories")}
         conf = {f"myst_{k}": v for k, v in cfg.items()}
+        conf.update(op.get("extra_conf") or {})
+        if op.get("shared_conf") and not fresh:
+            import copy
+
+            key = op["shared_conf"]
+            if key not in state.shared_conf:
+                state.shared_conf[key] = copy.deepcopy(conf)
+                state.shared_conf_snap[key] = sut.plain(copy.deepcopy(conf))
+            conf = state.shared_conf[key]
         # html builds run the HTML writer (part of the history) but are observed through the resolved
         # doctrees; xml builds are observed through the written files (the doctree, serialised)
         r = sut.sphinx_build(root, f"{'ref' if fresh else 'op'}{i}", root, conf, builder=op["builder"],
-                             observe="resolved" if op["builder"] == "html" else "written")
+                             observe="resolved" if op["builder"] == "html" else "written",
+                             share_confoverrides=bool(op.get("shared_conf")) and not fresh)
         ex = r[3]
         if not fresh and ex.get("cfg_before") != ex.get("cfg_after") and r[0] == "ok":
             fields = _diff_fields(ex["cfg_before"], ex["cfg_after"])
@@ -646,6 +679,8 @@ def _probes(op, state: _State, count, plan):
             count("probe_parse_after_mutation_of_returned_object")
     if kind == "sphinx" and prev:
         count("probe_sphinx_build_after_other_ops")
+    if kind == "sphinx" and op.get("shared_conf") and any(p.get("shared_conf") == op["shared_conf"] for p in prev):
+        count("probe_sphinx_build_with_reused_confoverrides")
     if kind == "wildcard":
         info = getattr(state, "lru", None)
         if info is not None and info.currsize >= 256:
